@@ -725,6 +725,25 @@ proof fn lemma_all_ns_empty<T>(t: Seq<TaggedLine<T>>, l: Seq<TaggedLineElement<T
     requires t.len() == 0, l.len() == 0, w.len() == 0,
     ensures all_ns(t, l, w) =~= Seq::<CItem<T>>::empty(),
 { reveal(content); }
+// a sequence of content items that holds fragment markers only
+spec fn only_frags<T>(s: Seq<CItem<T>>) -> bool { forall|i: int| 0 <= i < s.len() ==> (#[trigger] s[i]) is Frag }
+proof fn lemma_no_str_flat<T>(v: Seq<TaggedLineElement<T>>)
+    requires no_str(v),
+    ensures only_frags(flat(v)), ns(flat(v)) =~= flat(v), flat(v).len() == v.len(),
+    decreases v.len()
+{
+    if v.len() > 0 {
+        lemma_no_str_flat(v.drop_last());
+        assert(!(v.last() is Str));
+        lemma_ns_concat(flat(v.drop_last()), flat_elt(v.last()));
+        let e = flat_elt(v.last());
+        assert(e.len() == 1 && e.last() is Frag);
+        assert(e.drop_last() =~= Seq::<CItem<T>>::empty());
+        assert(ns(e.drop_last()) =~= Seq::<CItem<T>>::empty());
+        assert(!is_sp(e.last()));
+        assert(ns(e) =~= e);
+    }
+}
 // white space only: nothing is kept
 spec fn all_ws(s: Seq<char>) -> bool { forall|i: int| 0 <= i < s.len() ==> is_ws(#[trigger] s[i]) }
 proof fn lemma_kept_ws(s: Seq<char>)
@@ -815,6 +834,7 @@ impl<T: Clone + Eq + Debug + Default> WrappedBlock<T> {
             final(self).text@.len() >= old(self).text@.len(), //@w @C03 #fw_text_grows
             final(self).text@.take(old(self).text@.len() as int) =~= old(self).text@, //@w @C03 #fw_keeps_emitted_lines
             r.is_ok() ==> final(self).wordlen == 0 && no_str(final(self).word.v@), //@w @C04 @C03 #fw_word_flushed
+            r.is_ok() && !no_str(old(self).word.v@) ==> final(self).word.v@.len() == 0, //@w @C03 @C14 #fw_word_emptied
             // flushing moves the word to the output; no character or marker is lost, duplicated or reordered (C03, C14) //@w
             r.is_ok() ==> keeps_all(old(self).text@, old(self).line.v@, old(self).word.v@, final(self).text@, final(self).line.v@, final(self).word.v@), //@w @C03 @C14 #fw_keeps_content
             no_str(old(self).word.v@) ==> r.is_ok() && final(self).text@ == old(self).text@ && final(self).line == old(self).line && final(self).word == old(self).word //@w @C04 @C14 #fw_empty_word_noop
@@ -1441,6 +1461,8 @@ impl<T: Clone + Eq + Debug + Default> WrappedBlock<T> {
             r.is_ok() ==> final(self).inv_word() && final(self).wordlen == 0 && no_str(final(self).word.v@) && no_str(final(self).line.v@) && final(self).line.len == 0, //@w @C03 @C04 #flush_everything_emitted
             final(self).text@.len() >= old(self).text@.len(), final(self).text@.take(old(self).text@.len() as int) =~= old(self).text@, //@w @C03 #flush_keeps_emitted_lines
             r.is_ok() ==> keeps_all(old(self).text@, old(self).line.v@, old(self).word.v@, final(self).text@, final(self).line.v@, final(self).word.v@), //@w @C03 @C14 #flush_keeps_content
+            r.is_ok() && !no_str(old(self).word.v@) ==> final(self).word.v@.len() == 0, //@w @C03 @C14 #flush_word_emptied
+            no_str(old(self).word.v@) ==> final(self).word == old(self).word, //@w @C14 #flush_keeps_marker_word
     {
         self.flush_word(WhiteSpace::Normal)?;
         self.flush_line();
@@ -1452,6 +1474,8 @@ impl<T: Clone + Eq + Debug + Default> WrappedBlock<T> {
 //@sub /-> Result<Vec<TaggedLine<T>>>/ ==> -> (r: Result<Vec<TaggedLine<T>>>)
 //@sub /fn into_lines\(mut self\)/ ==> fn into_lines(self)
 //@sub /self\.flush\(\)\?;/ ==> let mut this = self;\n        this.flush()?;
+//@sub /self\.text\.last_mut\(\)/ ==> this.text.last_mut()
+//@sub /&mut self\.line/ ==> &mut this.line
 //@sub /Ok\(self\.text\)/ ==> Ok(this.text)
 //@auto C01 C02
     fn into_lines(self) -> (r: Result<Vec<TaggedLine<T>>>)
@@ -1461,10 +1485,53 @@ impl<T: Clone + Eq + Debug + Default> WrappedBlock<T> {
             self.allow_overflow ==> r.is_ok(), //@w @C11 #into_lines_overflow_ok
             // every line handed to the renderer is at most `width` columns wide (C02), or a single over-wide character when overflow is allowed (C11) //@w
             r matches Ok(lines) ==> forall|i: int| 0 <= i < lines@.len() ==> (#[trigger] lines@[i]).wf() && self.line_fits(lines@[i]), //@w @C02 @C11 #block_lines_fit
-            r matches Ok(lines) ==> lines@.len() >= self.text@.len() && lines@.take(self.text@.len() as int) =~= self.text@, //@w @C03 #into_lines_keeps_emitted
+            r matches Ok(lines) ==> lines@.len() >= self.text@.len() && (forall|i: int| 0 <= i < self.text@.len() - 1 ==> lines@[i] == self.text@[i]) //@w @C03 #into_lines_keeps_emitted
+                && (self.text@.len() > 0 ==> lines@[self.text@.len() - 1].len == self.text@.last().len), //@w @C03 #into_lines_keeps_emitted
+            // the lines returned carry every character of the block (finished lines, current line, current word), in order, each once (C03, C09); //@w
+            // what may be missing is at most fragment markers (`rest`) //@w
+            r matches Ok(lines) ==> exists|rest: Seq<CItem<T>>| #[trigger] only_frags(rest) && ns(lines_flat(lines@)) + rest =~= all_ns(self.text@, self.line.v@, self.word.v@), //@w @C03 @C09 #block_text_reaches_lines
+            // and not even markers once trailing markers have been taken out of the word (take_trailing_fragments) and there is a line to carry them (C14) //@w
+            r matches Ok(lines) ==> lines@.len() > 0 && (no_str(self.word.v@) ==> self.word.v@.len() == 0) ==> //@w @C14 #block_markers_reach_lines
+                ns(lines_flat(lines@)) =~= all_ns(self.text@, self.line.v@, self.word.v@), //@w @C14 #block_markers_reach_lines
     {
         let mut this = self;
         this.flush()?;
+        let ghost f = this; //@w
+        proof { //@w
+            lemma_no_str_cwid(f.line.v@); lemma_no_str_flat(f.line.v@); lemma_no_str_flat(f.word.v@); //@w
+            reveal(content); //@w
+            lemma_ns_concat(lines_flat(f.text@), flat(f.line.v@)); //@w
+        } //@w
+        // Zero-width markers with no text after them stay with the last line.
+        if let Some(last) = this.text.last_mut() {
+            last.consume(&mut this.line);
+        }
+        proof { //@w
+            let n = f.text@.len() as int; //@w
+            let x = lines_flat(f.text@) + flat(f.line.v@); //@w
+            let y = lines_flat(f.text@); //@w
+            let got = lines_flat(this.text@); //@w
+            if n > 0 { assert(this.text@.drop_last() =~= f.text@.drop_last()); } else { assert(this.text@ =~= f.text@); } //@w @C03 @C14 #finished_lines_kept
+            // characters (C03): the finished lines are returned, with or without the markers left in the current line //@w
+            assert(got =~= x || got =~= y); //@w @C03 @C14 #finished_lines_kept
+            if got =~= x { //@w
+                assert(ns(got) =~= content(f.text@, f.line.v@)); //@w
+                assert(only_frags(ns(flat(f.word.v@)))); //@w
+                assert(ns(got) + ns(flat(f.word.v@)) =~= all_ns(f.text@, f.line.v@, f.word.v@)); //@w
+            } else { //@w
+                let rest = ns(flat(f.line.v@)) + ns(flat(f.word.v@)); //@w
+                assert(only_frags(rest)); //@w
+                assert(ns(got) + rest =~= all_ns(f.text@, f.line.v@, f.word.v@)); //@w
+            } //@w
+            // markers (C14): those left in the current line after the last text join the last line //@w
+            if n > 0 { //@w
+                assert(got =~= x); //@w @C14 #markers_left_in_line_join_last_line
+                if no_str(self.word.v@) ==> self.word.v@.len() == 0 { //@w
+                    assert(f.word.v@.len() == 0); //@w
+                    assert(ns(flat(f.word.v@)) =~= Seq::<CItem<T>>::empty()); //@w
+                } //@w
+            } //@w
+        } //@w
 
         Ok(this.text)
     }
